@@ -187,13 +187,25 @@ def run_ops(image, ops):
     stats = {}
     streams = {}
     img = {}
+    handles = {}
     for n, op in enumerate(ops):
         c = op['c']
         if op['op'] == 'open':
             data = image[:op['eof']] if op.get('eof') is not None else image
             img[c] = (data, op['kind'])
             try:
-                streams[c] = open_stream(op['kind'], data, op['off'])
+                prev = handles.get(op.get('reuse'))
+                if op['kind'] == 'file' and prev is not None and prev.data == data:
+                    # a second stream over the SAME file handle, wherever earlier reads left it
+                    streams[c] = (s.B.bin_stream(prev, op['off']), prev)
+                    stats['handle-reused'] = stats.get('handle-reused', 0) + 1
+                else:
+                    streams[c] = open_stream(op['kind'], data, op['off'])
+                if op['kind'] == 'file':
+                    handles[c] = streams[c][1]
+                if streams[c][0].offset != op['off']:
+                    return {'class': 'R1:open-not-positioned', 'op': n, 'detail': {'backend': op['kind'], 'off': op['off'],
+                                                                                   'stream_offset': canon.ser_val(streams[c][0].offset)}}, stats
             except IOError:
                 streams.pop(c, None)
                 if op['off'] <= len(data):
@@ -208,6 +220,9 @@ def run_ops(image, ops):
                     st.offset = op['off']
                 else:
                     st.setoffset(op['off'])
+                if st.offset != op['off']:
+                    return {'class': 'R1:seek-not-honoured', 'op': n, 'detail': {'backend': img[c][1], 'requested': op['off'],
+                                                                                 'stream_offset': canon.ser_val(st.offset)}}, stats
         elif op['op'] == 'dis':
             if c not in streams:
                 continue
@@ -305,7 +320,13 @@ def gen_image(rng):
     for p in parts:
         bounds.append(o)
         o += len(p)
-    return img, [b for b in bounds if b < len(img)]
+    bounds = [b for b in bounds if b < len(img)]
+    if rng.random() < 0.06:
+        # far image: the interesting bytes sit beyond 64 KiB (offset arithmetic / masking)
+        pad = 0x10000 + rng.randrange(0, 64)
+        img = b'\x90' * pad + img
+        bounds = [pad + b for b in bounds]
+    return img, bounds
 
 def gen_run(rng):
     image, bounds = gen_image(rng)
@@ -314,10 +335,11 @@ def gen_run(rng):
     ops = []
     for c in range(nclients):
         kind = rng.choice(BACKENDS)
-        start = rng.choice(bounds) if rng.random() < 0.7 else rng.randrange(0, len(image) + 1)
+        lo = max(0, min(bounds) - 8) if bounds else 0
+        start = rng.choice(bounds) if rng.random() < 0.7 else rng.randrange(lo, len(image) + 1)
         op = {'op': 'open', 'c': c, 'kind': kind, 'off': start}
         if rng.random() < fault_p:
-            op['eof'] = rng.randrange(0, len(image) + 1)
+            op['eof'] = rng.randrange(lo, len(image) + 1)
             if rng.random() < 0.3:
                 op['off'] = op['eof'] + rng.choice([0, 0, 1, 5])     # start at / beyond the end
         ops.append(op)
@@ -333,12 +355,14 @@ def gen_run(rng):
                 op['eio_at'] = rng.randrange(1, 8)
             ops.append(op)
         elif k < 0.9:
-            ops.append({'op': 'seek', 'c': c, 'off': rng.choice(bounds) if rng.random() < 0.6 else rng.randrange(0, len(image) + 1),
+            ops.append({'op': 'seek', 'c': c, 'off': rng.choice(bounds) if rng.random() < 0.6 else rng.randrange(lo, len(image) + 1),
                         'via': rng.choice(['set', 'attr'])})
         else:
-            op = {'op': 'open', 'c': c, 'kind': rng.choice(BACKENDS), 'off': rng.choice(bounds)}
+            op = {'op': 'open', 'c': c, 'kind': rng.choice(BACKENDS), 'off': rng.choice(bounds + [0, 0])}
             if rng.random() < 0.5:
-                op['eof'] = rng.randrange(0, len(image) + 1)          # truncate-and-reopen
+                op['reuse'] = rng.randrange(nclients)
+            if rng.random() < 0.4:
+                op['eof'] = rng.randrange(lo, len(image) + 1)         # truncate-and-reopen
             ops.append(op)
     cfg = {'clients': nclients, 'fault_p': fault_p, 'image_len': len(image)}
     return cfg, image.hex(), ops
